@@ -949,7 +949,7 @@ func leanExpr(e *jExpr) string {
 	panic("leanExpr: " + e.K)
 }
 
-func leanBool(b bool) string {
+func smbLeanBool(b bool) string {
 	if b {
 		return "true"
 	}
@@ -986,7 +986,7 @@ func leanStmt(s jStmt, marshal bool) string {
 		return fmt.Sprintf(".subHead %s %s", q(s.F), q(s.Typ))
 	// unmarshal
 	case "retIfEmpty":
-		return fmt.Sprintf(".retIfEmpty %s %s", leanBool(s.PEmpty), leanBool(s.DEmpty))
+		return fmt.Sprintf(".retIfEmpty %s %s", smbLeanBool(s.PEmpty), smbLeanBool(s.DEmpty))
 	case "resetOffset", "advanceRead", "padRoundUp", "padIfPOdd", "resliceD":
 		return "." + s.Op
 	case "guard":
@@ -1004,7 +1004,7 @@ func leanStmt(s jStmt, marshal bool) string {
 		if s.Win >= 0 {
 			win = fmt.Sprintf("(some %d)", s.Win)
 		}
-		return fmt.Sprintf(".readSub .%s %s %s %s %s %s %s", s.Blk, q(s.F), q(s.Typ), win, leanBool(s.Whole), leanBool(s.Checked), leanBool(s.Op == "readSub"))
+		return fmt.Sprintf(".readSub .%s %s %s %s %s %s %s", s.Blk, q(s.F), q(s.Typ), win, smbLeanBool(s.Whole), smbLeanBool(s.Checked), smbLeanBool(s.Op == "readSub"))
 	case "advance", "setPad":
 		return fmt.Sprintf(".%s %s", s.Op, leanExpr(s.E))
 	case "clear":
@@ -1027,7 +1027,7 @@ func renderLean(cmds []jCmd) string {
 	var b strings.Builder
 	b.WriteString("import Manticore.Model.SmbIR\nnamespace Manticore.Gen.SmbCommands\nopen Manticore.SmbIR\n\n")
 	for _, c := range cmds {
-		fmt.Fprintf(&b, "/-- %s -/\ndef cmd_%s : Cmd where\n  name := %s\n  code := %s\n  isAndX := %s\n", c.File, c.Name, leanStr(c.Name), leanStr(c.Code), leanBool(c.IsAndX))
+		fmt.Fprintf(&b, "/-- %s -/\ndef cmd_%s : Cmd where\n  name := %s\n  code := %s\n  isAndX := %s\n", c.File, c.Name, leanStr(c.Name), leanStr(c.Code), smbLeanBool(c.IsAndX))
 		fs := make([]string, len(c.Fields))
 		for i, f := range c.Fields {
 			fs[i] = fmt.Sprintf("(%s, %s)", leanStr(f.Name), leanStr(f.Type))
